@@ -88,6 +88,21 @@ def generated(tier):
         for i, f in enumerate(fs[::max(1, len(fs) // 4)][:4]):
             out.append((f'{name}-not{i}', tab['decls'] +
                         f'(assert (not {f}))\n(assert (=> {f} (not {f})))\n'))
+    # equalities whose leaf operand occurs nested (depth 1 and 2) in the other
+    # operand: the occurs-check guards of the substituting mutators
+    for name, tab in TABLES.items():
+        v, w = tab['atoms'][0], tab['atoms'][1]
+        eqs = []
+        for u in tab['unary'][:2]:
+            eqs.append(f'(= {v} ({u} {v}))')
+            eqs.append(f'(= {v} ({u} ({u} {v})))')
+        for b in tab['binary'][:2]:
+            eqs.append(f'(= {v} ({b} {w} {v}))')
+            eqs.append(f'(= {v} ({b} ({b} {v} {w}) {w}))')
+            eqs.append(f'(= ({b} {w} ({b} {v} {v})) {v} {w})')
+        for i, e in enumerate(eqs):
+            out.append((f'{name}-occurs{i}',
+                        tab['decls'] + f'(assert {e})\n(check-sat)\n'))
     return out
 
 
@@ -209,6 +224,20 @@ HAND = [
 (declare-const y (_ BitVec 4))
 (assert (> (+ x7__fresh 1) (* _y 2)))
 (assert (= y #b0001))
+'''),
+    ('fresh-clash2', '(assert (> (+ a 1) (* b 2)))\n(declare-const a Int)\n'
+     '(declare-const b Int)\n' + ''.join(
+         f'(declare-const x{i}__fresh Int)\n' for i in range(5, 13))),
+    ('late-set-info', '''(set-info :smt-lib-version 2.6)
+(set-logic QF_BV)
+(declare-const v (_ BitVec 8))
+(declare-const k Int)
+(assert (= v (bvadd v #x01)))
+(assert (> (+ k 1) 2))
+(set-info :status sat)
+(check-sat)
+(set-info :exit-reason done)
+(exit)
 '''),
     ('comments', '''; leading
 (declare-const a Bool) ; trailing
